@@ -50,6 +50,10 @@ def validate(case):
             raise C.CaseInvalid(k)
     if case.get("drain", "all") != "all" and (not isinstance(case["drain"], int) or case["drain"] < 1):
         raise C.CaseInvalid("drain")
+    if case.get("send_fault") is not None and (not isinstance(case["send_fault"], int) or not (0 <= case["send_fault"] < 200)):
+        raise C.CaseInvalid("send_fault")
+    if case.get("send_errno", "ETIMEDOUT") not in ("ETIMEDOUT", "EINVAL", "generic", "EHOSTUNREACH", "EPIPE", "ECONNRESET"):
+        raise C.CaseInvalid("send_errno")
     if case.get("gran", "sync") not in ("sync", "line") or case.get("reqs", 1) not in (1, 2):
         raise C.CaseInvalid("gran")
 
@@ -62,6 +66,9 @@ def to_scenario(case):
     conn = {"segments": [stream], "capacity": case.get("capacity"), "drain": case.get("drain", "all"),
             "drain_stop_after": case.get("stop_after"), "drain_resume": case.get("resume", True), "reset_after_rx": case.get("reset_after"),
             "eof": bool(case.get("eof"))}
+    if case.get("send_fault") is not None:
+        # the n-th send() on the connection fails with an errno that is NOT a plain disconnect (e.g. ETIMEDOUT)
+        conn["faults"] = {"send:%d" % case["send_fault"]: case.get("send_errno", "ETIMEDOUT")}
     return {"adj": adj, "gran": case.get("gran", "sync"), "apps": [case["beh"]], "sndbuf": case.get("sndbuf", 1 << 20), "infinite_timeouts": True,
             "conns": [conn]}
 
@@ -85,7 +92,7 @@ def run_case_full(case, source=None, record=False):
 
     adj = case.get("adj") or {}
     wm = adj.get("outbuf_high_watermark", 16777216)
-    disconnects = case.get("reset_after") is not None
+    disconnects = case.get("reset_after") is not None or case.get("send_fault") is not None
     stalled_for_good = case.get("stop_after") is not None and not case.get("resume", True)
     ch = r.snap["channels"][0] if r.snap["channels"] else None
     labels = {"gran:" + case.get("gran", "sync"), "wm:%d" % wm, "mode:" + case["beh"]["mode"]}
@@ -94,7 +101,12 @@ def run_case_full(case, source=None, record=False):
     for name, d in r.died:
         fail("thread-died/" + d[0], "%s: %s" % (name, d[1]))
     for lvl, msg, et in r.logs:
+        if case.get("send_fault") is not None and msg == "Socket error":
+            continue   # the injected socket failure is logged, as log_socket_errors asks
         if lvl >= 40 and et is not None:
+            if case.get("send_fault") is not None and et == "AttributeError" and msg == "Unexpected exception when flushing":
+                fail("exception-logged/AttributeError/flush-on-closed-channel-after-send-error", "after a send() error the producer flushed on the channel the main thread had just closed (socket is None)")
+                break
             fail("exception-logged/%s" % et, "the server logged %r (%s) although the application never fails in this scenario" % (msg, et))
             break
     waited = False
@@ -108,7 +120,10 @@ def run_case_full(case, source=None, record=False):
         for name, fd in snap["parked_producers"]:
             c = [x for x in snap["channels"] if x["fd"] == fd][0]
             client_stalled = (phase == "first" and case.get("stop_after") is not None) or stalled_for_good
-            if c["tol"] <= wm:
+            if fd in snap.get("late_waits", ()) and case.get("send_fault") is not None:
+                # the wait *began* after the main thread had closed the channel (its only notify was already gone)
+                fail("producer-parked/wait-began-after-close", "%s quiescence: after a send() error the producer started to wait for the main thread when the channel was already closed" % phase)
+            elif c["tol"] <= wm:
                 fail("producer-parked/below-mark", "%s quiescence: producer waits although the backlog %d is not above the mark %d" % (phase, c["tol"], wm))
             elif not c["connected"]:
                 fail("producer-parked/disconnected", "%s quiescence: producer still waits after the client disconnected" % phase)
@@ -164,7 +179,7 @@ def case_strategy():
             adj["outbuf_overflow"] = draw(st.sampled_from([8, 64]))
         if draw(st.booleans()):
             adj["asyncore_use_poll"] = True
-        pat = draw(st.sampled_from(["steady", "steady", "stall-resume", "stall-resume", "reset", "stall-forever"]))
+        pat = draw(st.sampled_from(["steady", "steady", "stall-resume", "stall-resume", "reset", "stall-forever", "send-fault", "send-fault"]))
         total = sum(len(c) for c in chunks) + 120
         case = {"beh": beh, "adj": adj, "sndbuf": draw(st.sampled_from([4, 16, 64, 1 << 20])), "capacity": draw(st.sampled_from([5, 16, 50, 300])),
                 "drain": draw(st.sampled_from(["all", 3, 16])), "reqs": draw(st.sampled_from([1, 1, 2])),
@@ -177,6 +192,9 @@ def case_strategy():
             case["resume"] = False
         elif pat == "reset":
             case["reset_after"] = draw(st.integers(1, total))
+        elif pat == "send-fault":
+            case["send_fault"] = draw(st.integers(0, 14))
+            case["send_errno"] = draw(st.sampled_from(["ETIMEDOUT", "EINVAL", "generic", "EPIPE"]))
         return case
 
     return build()
@@ -189,6 +207,8 @@ FIXED = [
     {"beh": G3, "adj": {"outbuf_high_watermark": 20, "send_bytes": 1}, "sndbuf": 16, "capacity": 16, "drain": 8, "stop_after": 40, "resume": True},
     {"beh": G3, "adj": {"outbuf_high_watermark": 20, "send_bytes": 1}, "sndbuf": 16, "capacity": 16, "drain": 8, "reset_after": 60},
     {"beh": W3, "adj": {"outbuf_high_watermark": 1, "send_bytes": 1}, "sndbuf": 8, "capacity": 10, "drain": "all"},
+    {"beh": G3, "adj": {"outbuf_high_watermark": 100, "send_bytes": 1}, "sndbuf": 1 << 20, "capacity": 40, "drain": "all", "send_fault": 2, "send_errno": "ETIMEDOUT"},
+    {"beh": G3, "adj": {"outbuf_high_watermark": 60, "send_bytes": 1}, "sndbuf": 30, "capacity": 30, "drain": 30, "send_fault": 3, "send_errno": "EINVAL"},
     {"beh": G3, "adj": {"outbuf_high_watermark": 20, "send_bytes": 1, "asyncore_use_poll": True}, "sndbuf": 16, "capacity": 16, "drain": 8, "reset_after": 60},
     {"beh": G3, "adj": {"outbuf_high_watermark": 1, "asyncore_use_poll": True}, "sndbuf": 64, "capacity": 30, "drain": "all", "reset_after": 20},
     {"beh": G3, "adj": {"outbuf_high_watermark": 0, "send_bytes": 1}, "sndbuf": 64, "capacity": 20, "drain": "all"},
